@@ -65,14 +65,34 @@ def distinct(xs):
     return True
 
 
-def patch_spline(spline):
+import sys as _sys  # noqa: E402
+_RD = _sys.modules['pgradd.ThermoChem.raw_data']
+_REAL_IUS = _RD.InterpolatedUnivariateSpline
+_REAL_QUAD = _RD.integrate
+
+
+class _RecordingReal(SplineFactory):
+    """Replay mode: records the constructor call and delegates to the real FITPACK class."""
+
+    def __call__(self, Ts, Cps, k=3):
+        self.calls.append((tuple(Ts), tuple(Cps), k))
+        return _REAL_IUS(Ts, Cps, k=k)
+
+
+def patch_spline(spline, record_only=False):
     """Make raw_data build `spline` whenever it asks FITPACK for one; returns the factory
-    (records what the constructor passed) and installs the quad stub bound to that spline."""
+    (records what the constructor passed) and installs the quad stub bound to that spline.
+    record_only: the factory interpolates itself (Newton form) - used where only the constructor's
+    arguments matter."""
     m = install()
-    fac = SplineFactory(result=spline)
     if REPLAY is not None:
-        return fac, None            # replay: real FITPACK / QUADPACK / numpy
+        fac = _RecordingReal()
+        m['rd'].InterpolatedUnivariateSpline = fac   # real FITPACK behind a recorder; real QUADPACK
+        return fac, None
+    fac = SplineFactory(result=spline)
     m['rd'].InterpolatedUnivariateSpline = fac
+    if record_only:
+        return fac, None
     q = QuadStub(lambda: spline, R)
     m['rd'].integrate = q
     return fac, q
